@@ -20,7 +20,7 @@ def configs(tier):
     if tier == 'quick':
         add(spec('global', 'clenshaw-curtis', 2, 1, 2)); add(spec('global', 'gauss-legendre', 1, 1, 3)); add(spec('global', 'gauss-laguerre', 2, 1, 2, alpha=1.0)); add(spec('global', 'gauss-hermite', 1, 1, 3, alpha=0.0)); add(spec('global', 'gauss-chebyshev2', 1, 1, 2))
         add(spec('global', 'gauss-jacobi', 1, 1, 2, alpha=1.0, beta=2.0)); add(spec('sequence', 'rleja', 2, 2, 2)); add(spec('fourier', 'fourier', 1, 1, 1)); add(spec('localp', 'localp', 2, 1, 2, order=1), 0, 12); add(spec('wavelet', 'wavelet', 1, 1, 1, order=1), 0, 6)
-        add(spec('global', 'clenshaw-curtis', 2, 1, 3), 2); add(spec('sequence', 'rleja', 2, 2, 3), 2); add(spec('localp', 'localp', 2, 1, 3, order=1), 2); add(spec('global', 'gauss-legendre', 1, 1, 3), 2)   # conformal map composed with a linear transform
+        add(spec('global', 'clenshaw-curtis', 2, 1, 3), 2); add(spec('sequence', 'rleja', 2, 2, 3), 2); add(spec('localp', 'localp', 2, 1, 3, order=1), 2); add(spec('global', 'gauss-legendre', 1, 1, 3), 2); add(spec('wavelet', 'wavelet', 1, 2, 2, order=1), 2); add(spec('fourier', 'fourier', 1, 1, 1), 2)   # conformal map composed with a linear transform
         add(spec('global', 'clenshaw-curtis', 2, 1, 1), 1, 40, strategy='tree'); add(spec('global', 'gauss-laguerre', 1, 1, 1), 1, 12, strategy='tree'); add(spec('fourier', 'fourier', 1, 1, 1), 1, 12, strategy='tree')
     else:
         for rule in NESTED_GLOBAL[:9] + NON_NESTED:
@@ -32,7 +32,7 @@ def configs(tier):
         for rule in SEQUENCE_RULES: add(spec('sequence', rule, 2, 2, 3)); add(spec('sequence', rule, 3, 1, 2)); add(spec('sequence', rule, 2, 1, 4), 2)
         for rule in ('clenshaw-curtis', 'fejer2', 'leja', 'gauss-patterson', 'gauss-legendre', 'chebyshev', 'gauss-chebyshev2', 'gauss-gegenbauer'): add(spec('global', rule, 2, 1, 3, alpha=(1.0 if 'gegen' in rule else None)), 2); add(spec('global', rule, 1, 2, 4, alpha=(1.0 if 'gegen' in rule else None)), 2)
         for rule in LOCAL_RULES: add(spec('localp', rule, 2, 1, 3, order=1), 2); add(spec('localp', rule, 1, 1, 4, order=2), 2)
-        add(spec('wavelet', 'wavelet', 1, 1, 2, order=1), 2)
+        add(spec('wavelet', 'wavelet', 1, 1, 2, order=1), 2); add(spec('wavelet', 'wavelet', 2, 2, 1, order=3), 2); add(spec('wavelet', 'wavelet', 1, 2, 3, order=3), 2)
         add(spec('fourier', 'fourier', 1, 2, 1)); add(spec('fourier', 'fourier', 2, 1, 1)); add(spec('fourier', 'fourier', 2, 1, 1), 1, 60, strategy='tree')
         for rule in LOCAL_RULES:
             for order in (0, 1, 2, 3):
